@@ -295,7 +295,7 @@ Lemma drawing_step_hdr opcode b : opcode <? 224 = true ->
   | (its, Some b') => (ILine [opcode] (PDrawOp op nreps) :: its, StepOk true b')
   | (its, None) => (ILine [opcode] (PDrawOp op nreps) :: its, StepErr EInvalidNumber)
   end.
-Proof. intros H. unfold drawing_step, hdr, one_of. rewrite H. reflexivity. Qed.
+Proof. intros H. unfold drawing_step, draw_group, hdr, one_of. rewrite H. reflexivity. Qed.
 
 (* every run header the encoder can write decodes to its operation and count: finite sweep over the table *)
 Definition hdr_row_ok (row : Z * (Z * Z * Z)) : bool :=
